@@ -524,7 +524,8 @@ def add_sweeten(draw, classes, feats):
             elif k == 'add':
                 nm = 'marker' + c['name']
                 ops.append(['add', nm, draw(st.sampled_from(
-                    [['str', 'v1'], ['int', 2], ['bool', True], ['none'], ['float', '1.5']]))])
+                    [['str', 'v1'], ['int', 2], ['bool', True], ['none'], ['float', '1.5'],
+                     ['float', 'inf'], ['float', '-inf'], ['float', 'nan'], ['float', '1e+22']]))])
                 inv.append(['remove', nm])
             elif k == 'attrs' and names and not c.get('extra') and below(c['name']) == [c['name']]:
                 if inverse:
